@@ -93,6 +93,9 @@ Proof.
   - apply Z.eqb_neq in E. rewrite lookup_update_other by assumption. reflexivity.
 Qed.
 
+Lemma disp_eq_lib (d : disp) : d = DLib \/ d <> DLib.
+Proof. destruct d; auto; right; discriminate. Qed.
+
 Section Chain.
 Variable q_ok s_ok : Z -> bool.
 Notation fstep := (Model.fstep q_ok s_ok).
@@ -113,4 +116,557 @@ Proof.
   rewrite os_get_update. destruct (Z.eqb sg _); auto.
 Qed.
 
+(** A frame that does not hold the data mutex changes neither the dispositions nor either
+    snapshot history nor either current pointer. *)
+Lemma non_holder_step s f s' f' es :
+  frame_ok s f -> vdt f <> WIn -> fstep s f = (s', f', es) ->
+  os s' = os s /\ ptr (fb s') = ptr (fb s) /\ fhist s' = fhist s /\ ptr (dt s') = ptr (dt s) /\ dhist s' = dhist s.
+Proof.
+  intros Hfok Hnw Hs. pose proof Hfok as [Hok _]. unfold pc_ok in Hok.
+  destruct (fstep_os _ _ _ _ _ Hs) as [Ho|(Hpc & _)]; [|rewrite Hpc in Hok; tauto].
+  destruct (fstep_fb_nxt q_ok s_ok _ _ _ _ _ Hfok Hs) as [(_ & Hp & Hh)|(Hpc & _)]; [|rewrite Hpc in Hok; tauto].
+  destruct (fstep_dt_nxt q_ok s_ok _ _ _ _ _ Hfok Hs) as [(_ & Hp2 & Hh2)|(Hpc & Hv & _)]; [|congruence].
+  auto.
+Qed.
+
+Lemma held_fb_lt s fs k g i p :
+  HInv (fb s) (map vfb fs) -> CInv s fs -> nth_error fs k = Some g -> vfb g = RHold i p -> p < length (fhist s).
+Proof.
+  intros Hf HC Hk Hv. rewrite (c_flen _ _ HC).
+  assert (Hj : nth_error (map vfb fs) k = Some (RHold i p)) by (rewrite nth_error_map, Hk; simpl; congruence).
+  destruct (i_hold _ _ Hf k i p Hj) as [->|(st & a & b & it & Hc & _)].
+  - apply (i_ptr _ _ Hf).
+  - apply (i_old _ _ Hf _ _ _ _ _ Hc).
+Qed.
+
+(** What the reader clause of the invariant needs to survive a step of ANOTHER frame: the
+    dispositions only grow towards the library, the fallback history is append-only, and a slot
+    in the current data state persists. *)
+Lemma reader_clause_stable os0 s s' fs k g sg :
+  HInv (fb s) (map vfb fs) -> CInv s fs -> nth_error fs k = Some g -> kind g = KDeliver sg ->
+  (forall x, os_get s x = DLib -> os_get s' x = DLib) ->
+  (exists y, fhist s' = fhist s ++ y) ->
+  (slot_of (cur s) sg <> None -> slot_of (cur s') sg <> None) ->
+  match fpc g with
+  | PFbGen | PFbInc | PFbPtr => os_get s sg = DLib
+  | PDtGen | PDtInc | PDtPtr =>
+      os_get s sg = DLib /\ (nth (held_ptr (vfb g)) (fhist s) None = Some (sg, os0_get os0 sg) \/ slot_of (cur s) sg <> None)
+  | _ => True
+  end ->
+  pc_ok s g ->
+  match fpc g with
+  | PFbGen | PFbInc | PFbPtr => os_get s' sg = DLib
+  | PDtGen | PDtInc | PDtPtr =>
+      os_get s' sg = DLib /\ (nth (held_ptr (vfb g)) (fhist s') None = Some (sg, os0_get os0 sg) \/ slot_of (cur s') sg <> None)
+  | _ => True
+  end.
+Proof.
+  intros Hf HC Hk Hkd Hos [y Hy] Hslot H Hok. unfold pc_ok in Hok.
+  destruct (fpc g); auto;
+    destruct H as [H1 H2]; (split; [auto|]); (destruct H2 as [H2|H2]; [left|right; auto]);
+    destruct Hok as [(i & p & Hv) _]; rewrite Hv in *; simpl in *;
+    rewrite Hy, app_nth1; auto; eapply held_fb_lt; eauto.
+Qed.
+
+Lemma chain_holder_same os0 s s' g :
+  (forall x, os_get s' x = os_get s x) -> fcur s' = fcur s -> cur s' = cur s ->
+  chain_holder os0 s g -> chain_holder os0 s' g.
+Proof.
+  intros Ho Hf Hc H. unfold chain_holder in *. destruct (kind g) as [|[sg tag| |]]; auto.
+  destruct (fpc g); auto; rewrite ?Ho, ?Hf, ?Hc; auto.
+Qed.
+
+(** * A step of a frame that does not hold the data mutex *)
+Lemma chain_step_nonholder os0 s fs k f s' f' es :
+  Inv3 (s, fs) -> ChainInv os0 s fs -> nth_error fs k = Some f -> vdt f <> WIn ->
+  fstep s f = (s', f', es) -> ChainInv os0 s' (upd fs k f').
+Proof.
+  intros HI HX Hk Hnw Hs. pose proof HI as [[HP HC] HH]. simpl in HP, HC, HH.
+  pose proof HP as [[Hd Hf] Hfr]. pose proof (Hfr k f Hk) as Hfok.
+  destruct (non_holder_step s f s' f' es Hfok Hnw Hs) as (Ho & Hfp & Hfh & Hdp & Hdh).
+  assert (Hos : forall x, os_get s' x = os_get s x) by (intro x; unfold os_get; rewrite Ho; reflexivity).
+  assert (Hfc : fcur s' = fcur s) by (unfold fcur; rewrite Hfp, Hfh; reflexivity).
+  assert (Hcu : cur s' = cur s) by (unfold cur, content; rewrite Hdp, Hdh; reflexivity).
+  assert (Hct : forall p, content s' p = content s p) by (intro p; unfold content; rewrite Hdh; reflexivity).
+  pose proof (self_frame_ok q_ok s_ok s f s' f' es Hfok Hs) as [Hok' Hkind'].
+  assert (Hlen : k < length fs) by (apply nth_error_Some; congruence).
+  assert (Hkd : kind f' = kind f) by (apply (kind_preserved q_ok s_ok s f s' f' es Hs)).
+  (* if the stepping frame now holds the mutex it has just taken it *)
+  assert (Hacq : vdt f' = WIn -> fpc f' = MDtLoad).
+  { intro Hw. destruct Hfok as [Hok _]. unfold pc_ok in Hok. revert Hs Hw. clear - Hok Hnw. intros Hs Hw.
+    unfold Model.fstep in Hs. destruct (aborted (dt s) || aborted (fb s)) eqn:Hab; [inversion Hs; subst; congruence|].
+    apply orb_false_iff in Hab. destruct Hab as [Had Haf].
+    destruct (fpc f) eqn:Hpc;
+      try (exfalso; repeat match goal with H : _ /\ _ |- _ => destruct H end; congruence);
+      try (exfalso; try hsin Hs; split_conds_in Hs; try (destruct acts); inversion Hs; subst; simpl in Hw; congruence).
+    - (* PDtGen *) exfalso. destruct Hok as [_ Hv]. rewrite Hv in Hs. unfold hstep in Hs. rewrite Had in Hs. inversion Hs; subst. discriminate.
+    - exfalso. destruct Hok as [_ [i Hv]]. rewrite Hv in Hs. unfold hstep in Hs. rewrite Had in Hs. destruct (N.ltb _ _); inversion Hs; subst; discriminate.
+    - exfalso. destruct Hok as [_ [i Hv]]. rewrite Hv in Hs. unfold hstep in Hs. rewrite Had in Hs. inversion Hs; subst; discriminate.
+    - exfalso. destruct Hok as [_ (i & p & Hv)]. rewrite Hv in Hs. unfold hstep in Hs. rewrite Had in Hs. inversion Hs; subst; discriminate.
+    - (* MDtLock *) destruct Hok as [_ Hv]. rewrite Hv in Hs. unfold hstep in Hs. rewrite Had in Hs.
+      destruct (crit (dt s)); inversion Hs; subst; simpl in *; try discriminate; reflexivity. }
+  constructor.
+  - intro sg. rewrite Hos. apply (x_os _ _ _ HX).
+  - intros p Hp sg sl Hsl. rewrite Hct in Hsl. rewrite Hdh in Hp. rewrite Hos. apply (x_slot _ _ _ HX p Hp sg sl Hsl).
+  - intros p Hp sg Hsl. rewrite Hct in Hsl. rewrite Hdh in Hp. rewrite Hcu. apply (x_mono _ _ _ HX p Hp sg Hsl).
+  - intros sg Hl. rewrite Hos in Hl. rewrite Hcu. destruct (x_lib _ _ _ HX sg Hl) as [Hx|(j & g & tag & Hj & Hw & Hkg & Hpg)]; [left; assumption|].
+    right. exists j, g, tag. split; [|auto]. rewrite nth_upd_neq; [assumption|]. intro E. subst j. rewrite Hk in Hj. inversion Hj; subst. contradiction.
+  - intros j g Hj Hw. apply nth_upd_cases in Hj. destruct Hj as [(-> & _ & ->)|[Hne Hj]].
+    + specialize (Hacq Hw). unfold chain_holder. destruct (kind f') as [|[sg tag| |]]; auto. rewrite Hacq. exact I.
+    + apply (chain_holder_same os0 s s' g Hos Hfc Hcu). apply (x_holder _ _ _ HX j g Hj Hw).
+  - intros j g Hj Hw Hpl. apply nth_upd_cases in Hj. destruct Hj as [(-> & _ & ->)|[Hne Hj]].
+    + specialize (Hacq Hw). rewrite Hacq in Hpl. discriminate.
+    + rewrite Hcu. apply (x_local _ _ _ HX j g Hj Hw Hpl).
+  - intros j g sg Hj Hkg. apply nth_upd_cases in Hj. destruct Hj as [(-> & _ & ->)|[Hne Hj]].
+    + (* the stepping delivery *)
+      rewrite Hkd in Hkg.
+      pose proof (x_reader _ _ _ HX k f sg Hk Hkg) as Hr.
+      unfold Model.fstep in Hs. destruct (aborted (dt s) || aborted (fb s)) eqn:Hab.
+      { inversion Hs; subst. exact Hr. }
+      apply orb_false_iff in Hab. destruct Hab as [Had Haf].
+      destruct Hfok as [Hok Hko]. unfold pc_ok in Hok. unfold kind_ok in Hko. rewrite Hkg in Hko.
+      rewrite Hkg in Hs. cbn [sig_of] in Hs.
+      destruct (fpc f) eqn:Hpc; try discriminate Hko.
+      * (* PStart *) destruct (os_get s sg) eqn:Eo; inversion Hs; subst; simpl; auto; try (rewrite Hos; assumption).
+      * (* PForeign *) inversion Hs; subst; simpl; auto.
+      * (* PFbGen *) hsin Hs. inversion Hs; subst; simpl. rewrite Hos. exact Hr.
+      * (* PFbInc *) hsin Hs. inversion Hs; subst; simpl. rewrite Hos. exact Hr.
+      * (* PFbPtr: the fallback snapshot is loaded *)
+        destruct Hok as [[i Hv] _]. rewrite Hv in Hs. unfold hstep in Hs. rewrite Haf in Hs. inversion Hs; subst; clear Hs. simpl.
+        rewrite Hos. split; [exact Hr|]. rewrite Hcu.
+        destruct (x_lib _ _ _ HX sg Hr) as [Hx|(j & g & tag & Hj & Hw & Hkg2 & Hpg)]; [right; assumption|].
+        pose proof (x_holder _ _ _ HX j g Hj Hw) as Hch. unfold chain_holder in Hch. rewrite Hkg2, Hpg in Hch.
+        destruct (slot_of (cur s) sg) eqn:Es; [right; discriminate|].
+        left. destruct (Hch eq_refl) as (_ & Hfcur & _). exact Hfcur.
+      * (* PDtGen *) hsin Hs. inversion Hs; subst; simpl. rewrite Hos, Hcu. exact Hr.
+      * hsin Hs. inversion Hs; subst; simpl. rewrite Hos, Hcu. exact Hr.
+      * (* PDtPtr *) hsin Hs. inversion Hs; subst; simpl.
+        match goal with |- context [dispatch_next ?a ?b ?c] => destruct (dispatch_next_cases a b c) as [E2|[[l2 E2]|[si [l2 E2]]]]; rewrite E2 end; exact I.
+      * inversion Hs; subst; simpl. destruct (after_runs_cases acts) as [E2|[l2 E2]]; rewrite E2; exact I.
+      * destruct acts as [|a r]; inversion Hs; subst; simpl; auto. destruct (after_runs_cases r) as [E2|[l2 E2]]; rewrite E2; exact I.
+      * hsin Hs. inversion Hs; subst; simpl; exact I.
+      * hsin Hs. inversion Hs; subst; simpl; exact I.
+      * inversion Hs; subst. rewrite Hpc. exact I.
+    + pose proof (x_reader _ _ _ HX j g sg Hj Hkg) as Hr.
+      destruct (fpc g); auto; rewrite ?Hos, ?Hfh, ?Hcu; exact Hr.
+Qed.
+
+Lemma slot_of_update c sg sl sg' nid :
+  slot_of {| slots := update sg sl (slots c); next_id := nid |} sg' = if Z.eqb sg' sg then Some sl else slot_of c sg'.
+Proof.
+  unfold slot_of. simpl. destruct (Z.eqb sg' sg) eqn:E.
+  - apply Z.eqb_eq in E. subst. apply lookup_update_same.
+  - apply Z.eqb_neq in E. apply lookup_update_other. assumption.
+Qed.
+
+(** How the slots of the clone relate to the slots of the state it was cloned from, right after
+    the write guard was loaded. *)
+Lemma load_update_slots f c :
+  kind_ok f -> fpc f = MDtLoad ->
+  let g := load_update f WIn c in
+  forall sg, (forall sl, slot_of c sg = Some sl -> exists sl', slot_of (local g) sg = Some sl' /\ s_prev sl' = s_prev sl) /\
+             (forall sl', slot_of (local g) sg = Some sl' -> exists sl, slot_of c sg = Some sl /\ s_prev sl = s_prev sl').
+Proof.
+  unfold kind_ok, load_update. intros Hk Hpc.
+  destruct (kind f) as [sg0|m] eqn:Ek; [rewrite Hpc in Hk; discriminate|].
+  destruct m as [sg0 tag|sg0 aid|sg0]; destruct (lookup sg0 (slots c)) as [sl0|] eqn:El; simpl; intro sg;
+    try (split; intros sl H; exists sl; auto; fail).
+  - (* register, occupied *)
+    rewrite slot_of_update. simpl. destruct (Z.eqb sg sg0) eqn:E.
+    + apply Z.eqb_eq in E. subst sg0. unfold slot_of. rewrite El. split; intros sl H; inversion H; subst; eexists; split; eauto.
+    + split; intros sl H; exists sl; auto.
+  - (* unregister *)
+    destruct (has_act aid (s_acts sl0)); simpl; [|split; intros sl H; exists sl; auto].
+    rewrite slot_of_update. destruct (Z.eqb sg sg0) eqn:E.
+    + apply Z.eqb_eq in E. subst sg0. unfold slot_of. rewrite El. split; intros sl H; inversion H; subst; eexists; split; eauto.
+    + split; intros sl H; exists sl; auto.
+  - (* unregister_signal *)
+    destruct (s_acts sl0) eqn:Ea; simpl; [split; intros sl H; exists sl; auto|].
+    rewrite slot_of_update. destruct (Z.eqb sg sg0) eqn:E.
+    + apply Z.eqb_eq in E. subst sg0. unfold slot_of. rewrite El. split; intros sl H; inversion H; subst; eexists; split; eauto.
+    + split; intros sl H; exists sl; auto.
+Qed.
+
+Definition local_rel (c : sigdata) (g : frame) : Prop :=
+  forall sg, (forall sl, slot_of c sg = Some sl -> exists sl', slot_of (local g) sg = Some sl' /\ s_prev sl' = s_prev sl) /\
+             (forall sl', slot_of (local g) sg = Some sl' ->
+                (exists sl, slot_of c sg = Some sl /\ s_prev sl = s_prev sl') \/
+                (slot_of c sg = None /\ fpc g = MDtSwap /\ exists tag, kind g = KMut (MRegister sg tag))).
+
+Lemma local_rel_carry c g g' :
+  local_rel c g -> local g' = local g -> kind g' = kind g -> (fpc g = MDtSwap -> fpc g' = MDtSwap) -> local_rel c g'.
+Proof.
+  unfold local_rel. intros H Hl Hk Hp sg. rewrite Hl, Hk. destruct (H sg) as [A B]. split; [exact A|].
+  intros sl' Hsl. destruct (B sl' Hsl) as [?|(X & Y & Z)]; [left; assumption|right; auto].
+Qed.
+
+(** The stepping holder itself: its chain clause and the relation of its clone to the current
+    state, after a step that leaves it holding the mutex. *)
+Lemma self_chain os0 s fs k f s' f' es :
+  Inv3 (s, fs) -> ChainInv os0 s fs -> nth_error fs k = Some f -> vdt f = WIn ->
+  aborted (dt s) = false -> aborted (fb s) = false ->
+  fstep s f = (s', f', es) -> vdt f' = WIn ->
+  chain_holder os0 s' f' /\ (post_load (fpc f') = true -> local_rel (cur s') f').
+Proof.
+  intros HI HX Hk Hw Had Haf Hs Hw'. pose proof HI as [[HP HC] HH]. simpl in HP, HC, HH.
+  pose proof HP as [[Hd Hf] Hfr]. pose proof (Hfr k f Hk) as Hfok. destruct Hfok as [Hok Hkok].
+  assert (Huniq : forall j g, nth_error fs j = Some g -> vdt g = WIn -> j = k).
+  { intros j g Hj Hwg. eapply (holder_unique (dt s) (map vdt fs)); eauto; rewrite nth_error_map; [rewrite Hj|rewrite Hk]; simpl; congruence. }
+  pose proof (x_holder _ _ _ HX k f Hk Hw) as Hch.
+  assert (Hlr : post_load (fpc f) = true -> local_rel (cur s) f) by (intro Hp; exact (x_local _ _ _ HX k f Hk Hw Hp)).
+  unfold Model.fstep in Hs. rewrite Had, Haf in Hs. cbn [orb] in Hs. unfold pc_ok in Hok.
+  destruct (fpc f) eqn:Hpc;
+    try (exfalso; repeat match goal with H : _ /\ _ |- _ => destruct H end;
+         repeat match goal with H : holds _ |- _ => destruct H as (? & ? & ?) end;
+         repeat match goal with H : exists _, _ |- _ => destruct H end; congruence).
+  - (* MDtLoad *)
+    destruct Hok as (Hvf & _ & Hcr). rewrite Hw in Hs. unfold hstep in Hs. rewrite Had, Hcr in Hs. inversion Hs; subst; clear Hs.
+    set (c := nth (ptr (dt s)) (dhist s) sd_init) in *.
+    assert (Hc : c = cur s) by reflexivity.
+    destruct (load_derived f c Hkok Hpc) as [Hder Hkd].
+    destruct (load_update_ok f WIn c Hkok Hpc) as [_ Hcases].
+    destruct (load_update_views f WIn c) as (_ & _ & Hkk).
+    assert (Hcur : cur (set_dt s (set_crit (dt s) CLoaded)) = cur s) by reflexivity.
+    split.
+    + unfold chain_holder. rewrite Hkk. destruct (kind f) as [|[sg tag| |]] eqn:Ek; auto.
+      unfold derived in Hder. rewrite Hkk in Hder. destruct Hder as (_ & _ & _ & Hpi).
+      destruct Hcases as [E2|[E2|E2]]; rewrite E2 in *; simpl in Hpi; auto.
+      * (* occupied: the signal has a slot *)
+        intro Hnone. exfalso. unfold load_update in E2. rewrite Ek in E2.
+        destruct (lookup sg (slots c)) eqn:El; simpl in E2; [|discriminate].
+        rewrite Hcur in Hnone. unfold slot_of in Hnone. rewrite <- Hc in Hnone. congruence.
+      * (* vacant: the library has not taken the signal yet *)
+        destruct Hpi as [Hlk _]. intro Hl.
+        assert (Hl0 : os_get s sg = DLib) by exact Hl.
+        destruct (x_lib _ _ _ HX sg Hl0) as [Hx|(j & g & tag2 & Hj & Hwg & _ & Hpg)].
+        -- apply Hx. unfold slot_of. rewrite <- Hc. exact Hlk.
+        -- assert (j = k) by (eapply Huniq; eauto). subst j. rewrite Hk in Hj. inversion Hj; subst g. congruence.
+    + intros _. rewrite Hcur, <- Hc. intro sg. destruct (load_update_slots f c Hkok Hpc sg) as [A B].
+      split; [exact A|]. intros sl' Hsl. left. exact (B sl' Hsl).
+  - (* MFbLock *)
+    destruct Hok as (Hvf & _ & Hcr). hsin Hs. inversion Hs; subst; clear Hs. simpl in *.
+    split.
+    + unfold chain_holder in *. simpl. destruct (kind f) as [|[sg tag| |]]; auto. rewrite Hpc in Hch.
+      match goal with |- context [match ?vv with WIn => _ | _ => _ end] => destruct vv end; simpl; exact Hch.
+    + intros _. apply (local_rel_carry _ f); [apply Hlr; reflexivity|reflexivity|reflexivity|let HH0 := fresh in intro HH0; rewrite Hpc in HH0; discriminate].
+  - (* MFbLoad *)
+    hsin Hs. inversion Hs; subst; clear Hs. simpl in *. split.
+    + unfold chain_holder in *. simpl. destruct (kind f) as [|[sg tag| |]]; auto. rewrite Hpc in Hch. exact Hch.
+    + intros _. apply (local_rel_carry _ f); [apply Hlr; reflexivity|reflexivity|reflexivity|let HH0 := fresh in intro HH0; rewrite Hpc in HH0; discriminate].
+  - (* MDetect *)
+    assert (Hlr0 : local_rel (cur s) f) by (apply Hlr; reflexivity).
+    split_conds_in Hs; inversion Hs; subst; clear Hs; simpl in *; split.
+    + unfold chain_holder in *. simpl. destruct (kind f) as [|[sg tag| |]] eqn:Ek; auto. rewrite Hpc in Hch. simpl.
+      split; [exact Hch|]. intros _. destruct (x_os _ _ _ HX sg); [contradiction|assumption].
+    + intros _. apply (local_rel_carry _ f); [exact Hlr0|reflexivity|reflexivity|let HH0 := fresh in intro HH0; rewrite Hpc in HH0; discriminate].
+    + unfold chain_holder in *. simpl. destruct (kind f) as [|[sg tag| |]]; auto. rewrite Hpc in Hch. exact Hch.
+    + intros _. apply (local_rel_carry _ f); [exact Hlr0|reflexivity|reflexivity|let HH0 := fresh in intro HH0; rewrite Hpc in HH0; discriminate].
+  - (* MFbSwap *)
+    destruct Hok as (Hvf & Hcf & _ & Hcr). rewrite Hvf in Hs. unfold hstep in Hs. rewrite Haf, Hcf in Hs. inversion Hs; subst; clear Hs. simpl in *.
+    split.
+    + unfold chain_holder in *. simpl. destruct (kind f) as [|[sg tag| |]] eqn:Ek; auto. rewrite Hpc in Hch. destruct Hch as [Hnl Hlp].
+      split; [exact Hnl|]. unfold fcur. simpl. rewrite <- (c_flen _ _ HC). rewrite app_nth2 by lia. rewrite Nat.sub_diag. simpl. rewrite (Hlp eq_refl). reflexivity.
+    + intros _. apply (local_rel_carry _ f); [apply Hlr; reflexivity|reflexivity|reflexivity|let HH0 := fresh in intro HH0; rewrite Hpc in HH0; discriminate].
+  - (* MFbBarrier *)
+    destruct Hok as (Hvf & Hst & _ & Hcr). rewrite Hvf in Hs. unfold hstep in Hs. rewrite Haf in Hs.
+    unfold in_store in Hst. destruct (crit (fb s)) as [| | |old st a b it|] eqn:Hcf; try discriminate.
+    destruct (barrier_step (fb s) old st a b it) as [h2 e2] eqn:Hb. inversion Hs; subst; clear Hs. simpl in *.
+    apply barrier_step_shape in Hb. destruct Hb as (Hp & _).
+    assert (Hfc : fcur (set_fb s h2) = fcur s) by (unfold fcur; simpl; rewrite Hp; reflexivity).
+    split.
+    + unfold chain_holder in *. simpl. destruct (kind f) as [|[sg tag| |]]; auto. rewrite Hpc in Hch.
+      destruct (in_store h2); simpl; rewrite Hfc; exact Hch.
+    + intros _. apply (local_rel_carry _ f); [apply Hlr; reflexivity|reflexivity|reflexivity|let HH0 := fresh in intro HH0; rewrite Hpc in HH0; discriminate].
+  - (* MFbUnlock *)
+    destruct Hok as (Hvf & Hcf & _ & Hcr). rewrite Hvf in Hs. unfold hstep in Hs. rewrite Haf, Hcf in Hs. inversion Hs; subst; clear Hs. simpl in *.
+    split.
+    + unfold chain_holder in *. simpl. destruct (kind f) as [|[sg tag| |]]; auto. rewrite Hpc in Hch. exact Hch.
+    + intros _. apply (local_rel_carry _ f); [apply Hlr; reflexivity|reflexivity|reflexivity|let HH0 := fresh in intro HH0; rewrite Hpc in HH0; discriminate].
+  - (* MSlotNew *)
+    assert (Hlr0 : local_rel (cur s) f) by (apply Hlr; reflexivity).
+    destruct (h_kind _ _ HH k f Hk ltac:(rewrite Hpc; reflexivity)) as (sg & tag & Ek).
+    assert (Hder : derived (cur s) f) by (apply (h_pre _ _ HH k f Hk Hw); left; rewrite Hpc; reflexivity).
+    unfold derived in Hder. rewrite Ek, Hpc in Hder. simpl in Hder. destruct Hder as (_ & _ & _ & Hlk & Hsl).
+    unfold chain_holder in Hch. rewrite Ek, Hpc in Hch. destruct Hch as [Hnl Hfc].
+    rewrite Ek in Hs. cbn [sig_of] in Hs.
+    split_conds_in Hs; inversion Hs; subst; clear Hs; simpl in *; split.
+    + (* installed *)
+      unfold chain_holder. simpl. rewrite ?Ek. intros _.
+      assert (Eo : os_get {| dt := dt s; fb := fb s; dhist := dhist s; fhist := fhist s; os := update sg DLib (os s) |} sg = DLib).
+      { unfold os_get. simpl. rewrite lookup_update_same. reflexivity. }
+      split; [exact Eo|]. split; [exact Hfc|].
+      eexists. split.
+      * unfold slot_of. simpl. rewrite Hsl. rewrite lookup_app_new by assumption. rewrite Z.eqb_refl. reflexivity.
+      * simpl. destruct (x_os _ _ _ HX sg); [contradiction|assumption].
+    + intros _ sg'. destruct (Hlr0 sg') as [A B]. unfold slot_of in *. simpl. rewrite Hsl in *.
+      rewrite lookup_app_new by assumption. destruct (Z.eqb sg' sg) eqn:E.
+      * apply Z.eqb_eq in E. subst sg'. split.
+        -- intros sl Hx. unfold cur, content in Hx. simpl in Hx. unfold cur, content in Hlk. congruence.
+        -- intros sl' Hx. right. split; [exact Hlk|]. split; [reflexivity|eauto].
+      * split; [exact A|]. intros sl' Hx. destruct (B sl' Hx) as [?|(_ & Hc2 & _)]; [left; assumption|congruence].
+    + unfold chain_holder. simpl. rewrite ?Ek. exact Hnl.
+    + intros _. apply (local_rel_carry _ f); [exact Hlr0|reflexivity|simpl; congruence|let HH0 := fresh in intro HH0; rewrite Hpc in HH0; discriminate].
+  - (* MDtSwap *)
+    destruct Hok as (_ & _ & Hcr). rewrite Hw in Hs. unfold hstep in Hs. rewrite Had, Hcr in Hs. inversion Hs; subst; clear Hs. simpl in *.
+    split; [|simpl; discriminate]. unfold chain_holder. simpl. destruct (kind f) as [|[sg tag| |]]; auto.
+  - (* MDtBarrier *)
+    destruct Hok as (_ & _ & Hst). rewrite Hw in Hs. unfold hstep in Hs. rewrite Had in Hs.
+    unfold in_store in Hst. destruct (crit (dt s)) as [| | |old st a b it|] eqn:Hcr; try discriminate.
+    destruct (barrier_step (dt s) old st a b it) as [h2 e2] eqn:Hb. inversion Hs; subst; clear Hs. simpl in *.
+    split; [|destruct (in_store h2); discriminate].
+    unfold chain_holder. simpl. destruct (kind f) as [|[sg tag| |]]; auto. destruct (in_store h2); exact I.
+  - (* MDtUnlock *)
+    exfalso. destruct Hok as (_ & _ & Hcr). rewrite Hw in Hs. unfold hstep in Hs. rewrite Had in Hs.
+    destruct Hcr as [Hcr|Hcr]; rewrite Hcr in Hs; inversion Hs; subst; discriminate.
+  - (* MErrFbUnlock *)
+    destruct Hok as (Hvf & Hcf & _ & Hcr). rewrite Hvf in Hs. unfold hstep in Hs. rewrite Haf, Hcf in Hs. inversion Hs; subst; clear Hs. simpl in *.
+    split.
+    + unfold chain_holder in *. simpl. destruct (kind f) as [|[sg tag| |]]; auto. rewrite Hpc in Hch. exact Hch.
+    + intros _. apply (local_rel_carry _ f); [apply Hlr; reflexivity|reflexivity|reflexivity|let HH0 := fresh in intro HH0; rewrite Hpc in HH0; discriminate].
+  - (* MErrDtUnlock *)
+    exfalso. destruct Hok as (_ & _ & Hcr). rewrite Hw in Hs. unfold hstep in Hs. rewrite Had, Hcr in Hs. inversion Hs; subst; discriminate.
+Qed.
+
+(** * A step of the frame that holds the data mutex *)
+Lemma chain_step_holder os0 s fs k f s' f' es :
+  Inv3 (s, fs) -> ChainInv os0 s fs -> nth_error fs k = Some f -> vdt f = WIn ->
+  aborted (dt s) || aborted (fb s) = false ->
+  fstep s f = (s', f', es) -> ChainInv os0 s' (upd fs k f').
+Proof.
+  intros HI HX Hk Hw Hab Hs. pose proof HI as [[HP HC] HH]. simpl in HP, HC, HH.
+  pose proof HP as [[Hd Hf] Hfr]. pose proof (Hfr k f Hk) as Hfok.
+  pose proof (self_frame_ok q_ok s_ok s f s' f' es Hfok Hs) as [Hok' Hkind'].
+  assert (Hlen : k < length fs) by (apply nth_error_Some; congruence).
+  assert (Hkd : kind f' = kind f) by (apply (kind_preserved q_ok s_ok s f s' f' es Hs)).
+  assert (Huniq : forall j g, nth_error fs j = Some g -> vdt g = WIn -> j = k).
+  { intros j g Hj Hwg. eapply (holder_unique (dt s) (map vdt fs)); eauto; rewrite nth_error_map; [rewrite Hj|rewrite Hk]; simpl; congruence. }
+  assert (Hptr_lt : ptr (dt s) < length (dhist s)) by (rewrite (c_dlen _ _ HC); apply (i_ptr _ _ Hd)).
+  pose proof (x_holder _ _ _ HX k f Hk Hw) as Hch.
+  (* general facts about the step *)
+  assert (G1 : forall x, os_get s x = DLib -> os_get s' x = DLib) by (intros x; apply (os_mono s f s' f' es x Hs)).
+  assert (G2 : exists y, fhist s' = fhist s ++ y).
+  { destruct (fstep_fhist q_ok s_ok _ _ _ _ _ Hs) as [->|[_ ->]]; [exists []; rewrite app_nil_r; reflexivity|eauto]. }
+  assert (G3 : forall p, p < length (dhist s) -> content s' p = content s p).
+  { intros p Hp. unfold content. destruct (fstep_dhist q_ok s_ok _ _ _ _ _ Hs) as [->|[_ ->]]; [reflexivity|apply app_nth1; assumption]. }
+  assert (Gpub : (ptr (dt s') = ptr (dt s) /\ dhist s' = dhist s /\ cur s' = cur s) \/
+                 (fpc f = MDtSwap /\ dhist s' = dhist s ++ [local f] /\ cur s' = local f /\ fpc f' = MDtBarrier /\ os s' = os s /\ fhist s' = fhist s
+                  /\ ptr (fb s') = ptr (fb s))).
+  { destruct (fstep_dt_nxt q_ok s_ok _ _ _ _ _ Hfok Hs) as [(_ & Hp & Hh)|(Hpc & _ & Hc & _ & Hp & Hh & _)].
+    - left. repeat split; auto. unfold cur, content. rewrite Hp, Hh. reflexivity.
+    - right. apply orb_false_iff in Hab. destruct Hab as [Had Haf]. clear Hok' Hkind' Hkd G1 G2 G3.
+      unfold Model.fstep in Hs. rewrite Had, Haf, Hpc in Hs. simpl in Hs. rewrite Hw in Hs. unfold hstep in Hs. rewrite Had, Hc in Hs.
+      inversion Hs; subst. simpl. repeat split; auto.
+      unfold cur, content. simpl. rewrite <- (c_dlen _ _ HC). rewrite app_nth2 by lia. rewrite Nat.sub_diag. reflexivity. }
+  assert (G4 : forall sg, slot_of (cur s) sg <> None -> slot_of (cur s') sg <> None).
+  { intros sg Hsl. destruct Gpub as [(_ & _ & ->)|(Hpc & _ & -> & _)]; [assumption|].
+    destruct (slot_of (cur s) sg) as [sl|] eqn:Es; [|congruence].
+    destruct (x_local _ _ _ HX k f Hk Hw ltac:(rewrite Hpc; reflexivity) sg) as [H1 _].
+    destruct (H1 sl Es) as (sl' & E & _). rewrite E. discriminate. }
+  assert (Hreader : forall j g sg, j <> k -> nth_error fs j = Some g -> kind g = KDeliver sg ->
+            match fpc g with
+            | PFbGen | PFbInc | PFbPtr => os_get s' sg = DLib
+            | PDtGen | PDtInc | PDtPtr =>
+                os_get s' sg = DLib /\ (nth (held_ptr (vfb g)) (fhist s') None = Some (sg, os0_get os0 sg) \/ slot_of (cur s') sg <> None)
+            | _ => True
+            end).
+  { intros j g sg Hne Hj Hkg. destruct (Hfr j g Hj) as [Hokg _].
+    apply (reader_clause_stable os0 s s' fs j g sg Hf HC Hj Hkg G1 G2 (G4 sg) (x_reader _ _ _ HX j g sg Hj Hkg) Hokg). }
+  constructor.
+  - (* x_os *)
+    intro sg. destruct (fstep_os _ _ _ _ _ Hs) as [E|(_ & _ & E)].
+    + assert (E2 : os_get s' sg = os_get s sg) by (unfold os_get; rewrite E; reflexivity). rewrite E2. apply (x_os _ _ _ HX).
+    + assert (E2 : os_get s' sg = if Z.eqb sg (sig_of (kind f)) then DLib else os_get s sg) by (unfold os_get at 1; rewrite E; apply os_get_update).
+      rewrite E2. destruct (Z.eqb sg _); [left; reflexivity|apply (x_os _ _ _ HX)].
+  - (* x_slot *)
+    intros p Hp sg sl Hsl.
+    destruct Gpub as [(_ & Hh & _)|(Hpc & Hh & Hc' & _)]; rewrite Hh in Hp.
+    + rewrite G3 in Hsl by assumption. destruct (x_slot _ _ _ HX p Hp sg sl Hsl) as [A B]. split; [assumption|apply G1; assumption].
+    + rewrite app_length in Hp. simpl in Hp. destruct (Nat.eq_dec p (length (dhist s))) as [->|Hne].
+      * assert (Hcl : content s' (length (dhist s)) = local f).
+        { unfold content. rewrite Hh. rewrite app_nth2 by lia. rewrite Nat.sub_diag. reflexivity. }
+        rewrite Hcl in Hsl.
+        destruct (x_local _ _ _ HX k f Hk Hw ltac:(rewrite Hpc; reflexivity) sg) as [_ H2].
+        destruct (H2 sl Hsl) as [(sl0 & E0 & Hp0)|(Enone & _ & tag & Ekd)].
+        -- destruct (x_slot _ _ _ HX (ptr (dt s)) Hptr_lt sg sl0 E0) as [A B]. split; [congruence|apply G1; assumption].
+        -- unfold chain_holder in Hch. rewrite Ekd, Hpc in Hch. destruct (Hch Enone) as (Hl & _ & sl2 & E2 & Hp2).
+           rewrite E2 in Hsl. inversion Hsl; subst. split; [assumption|apply G1; assumption].
+      * rewrite G3 in Hsl by lia. destruct (x_slot _ _ _ HX p ltac:(lia) sg sl Hsl) as [A B]. split; [assumption|apply G1; assumption].
+  - (* x_mono *)
+    intros p Hp sg Hsl.
+    destruct Gpub as [(_ & Hh & Hc')|(Hpc & Hh & Hc' & _)]; rewrite Hh in Hp.
+    + rewrite G3 in Hsl by assumption. rewrite Hc'. apply (x_mono _ _ _ HX p Hp sg Hsl).
+    + rewrite app_length in Hp. simpl in Hp. destruct (Nat.eq_dec p (length (dhist s))) as [->|Hne].
+      * assert (Hcl : content s' (length (dhist s)) = local f).
+        { unfold content. rewrite Hh. rewrite app_nth2 by lia. rewrite Nat.sub_diag. reflexivity. }
+        rewrite Hcl in Hsl. rewrite Hc'. assumption.
+      * rewrite G3 in Hsl by lia. apply G4. apply (x_mono _ _ _ HX p ltac:(lia) sg Hsl).
+  - (* x_lib *)
+    intros sg Hl.
+    destruct (disp_eq_lib (os_get s sg)) as [Hold|Hnew].
+    + destruct (x_lib _ _ _ HX sg Hold) as [Hx|(j & g & tag & Hj & Hwg & Hkg & Hpg)]; [left; apply G4; assumption|].
+      assert (j = k) by (eapply Huniq; eauto). subst j. rewrite Hk in Hj. inversion Hj; subst g.
+      left. destruct Gpub as [(Hp & Hh & _)|(_ & _ & Hc' & _)].
+      * (* f at MDtSwap did not publish: impossible when alive *)
+        exfalso. destruct (fstep_dt_nxt q_ok s_ok _ _ _ _ _ Hfok Hs) as [(Hn & _)|(_ & _ & _ & _ & _ & Hh2 & _)].
+        -- destruct Hfok as [Hok _]. unfold pc_ok in Hok. rewrite Hpg in Hok. destruct Hok as (_ & _ & Hcr).
+           apply orb_false_iff in Hab. destruct Hab as [Had Haf].
+           unfold Model.fstep in Hs. rewrite Had, Haf, Hpg in Hs. simpl in Hs. rewrite Hw in Hs. unfold hstep in Hs. rewrite Had, Hcr in Hs.
+           inversion Hs; subst. simpl in Hn. lia.
+        -- rewrite Hh in Hh2. apply (f_equal (@length _)) in Hh2. rewrite app_length in Hh2. simpl in Hh2. lia.
+      * rewrite Hc'. unfold chain_holder in Hch. rewrite Hkg, Hpg in Hch.
+        destruct (slot_of (cur s) sg) as [sl|] eqn:Es.
+        -- destruct (x_local _ _ _ HX k f Hk Hw ltac:(rewrite Hpg; reflexivity) sg) as [H1 _].
+           destruct (H1 sl Es) as (sl' & E & _). rewrite E. discriminate.
+        -- destruct (Hch eq_refl) as (_ & _ & sl & E & _). rewrite E. discriminate.
+    + (* the disposition has just become the library's: Slot::new by f *)
+      destruct (fstep_os _ _ _ _ _ Hs) as [E|(Hpc & Hpc' & E)].
+      * exfalso. apply Hnew. unfold os_get in *. rewrite E in Hl. exact Hl.
+      * unfold os_get in Hl. rewrite E in Hl. rewrite os_get_update in Hl.
+        destruct (Z.eqb sg (sig_of (kind f))) eqn:Eq; [|exfalso; apply Hnew; exact Hl].
+        apply Z.eqb_eq in Eq. subst sg.
+        destruct (h_kind _ _ HH k f Hk ltac:(rewrite Hpc; reflexivity)) as (sg0 & tag & Ekd).
+        right. exists k, f', tag. rewrite nth_upd_eq by assumption. rewrite Hkd, Ekd. simpl.
+        unfold pc_ok in Hok'. rewrite Hpc' in Hok'. tauto.
+  - (* x_holder *)
+    intros j g Hj Hwg. apply nth_upd_cases in Hj. destruct Hj as [(-> & _ & ->)|[Hne Hj]]; [|exfalso; apply Hne; apply (Huniq j g Hj Hwg)].
+    apply orb_false_iff in Hab. destruct Hab as [Had Haf].
+    apply (self_chain os0 s fs k f s' f' es HI HX Hk Hw Had Haf Hs Hwg).
+  - (* x_local *)
+    intros j g Hj Hwg Hpl. apply nth_upd_cases in Hj. destruct Hj as [(-> & _ & ->)|[Hne Hj]]; [|exfalso; apply Hne; apply (Huniq j g Hj Hwg)].
+    apply orb_false_iff in Hab. destruct Hab as [Had Haf].
+    apply (self_chain os0 s fs k f s' f' es HI HX Hk Hw Had Haf Hs Hwg). exact Hpl.
+  - (* x_reader *)
+    intros j g sg Hj Hkg. apply nth_upd_cases in Hj. destruct Hj as [(-> & _ & ->)|[Hne Hj]]; [|apply (Hreader j g sg Hne Hj Hkg)].
+    exfalso. rewrite Hkd in Hkg. destruct Hfok as [Hok Hko]. unfold kind_ok in Hko. rewrite Hkg in Hko. unfold pc_ok in Hok.
+    destruct (fpc f); try discriminate Hko; repeat match goal with H : _ /\ _ |- _ => destruct H end;
+      repeat match goal with H : holds _ |- _ => destruct H as (? & ? & ?) end;
+      repeat match goal with H : exists _, _ |- _ => destruct H end; congruence.
+Qed.
+
 End Chain.
+
+Section ChainRun.
+Variable q_ok s_ok : Z -> bool.
+
+Lemma view_win_dec (v : view) : v = WIn \/ v <> WIn.
+Proof. destruct v; auto; right; discriminate. Qed.
+
+Lemma chaininv_step os0 s fs k f s' f' es :
+  Inv3 (s, fs) -> ChainInv os0 s fs -> nth_error fs k = Some f -> Model.fstep q_ok s_ok s f = (s', f', es) ->
+  ChainInv os0 s' (upd fs k f').
+Proof.
+  intros HI HX Hk Hs. destruct (aborted (dt s) || aborted (fb s)) eqn:Hab.
+  - unfold Model.fstep in Hs. rewrite Hab in Hs. inversion Hs; subst. rewrite upd_same by assumption. assumption.
+  - destruct (view_win_dec (vdt f)) as [Hw|Hnw].
+    + eapply chain_step_holder; eauto.
+    + eapply chain_step_nonholder; eauto.
+Qed.
+
+Definition no_lib (os0 : list (Z * disp)) : Prop := forall sg, os0_get os0 sg <> DLib.
+
+Lemma chaininv_init os0 : no_lib os0 -> ChainInv os0 (sh_init os0) [].
+Proof.
+  intro Hn. constructor.
+  - intro sg. right. reflexivity.
+  - intros p Hp sg sl Hsl. simpl in Hp. assert (p = 0) by lia. subst. unfold content, slot_of in Hsl. simpl in Hsl. discriminate.
+  - intros p Hp sg Hsl. simpl in Hp. assert (p = 0) by lia. subst. exact Hsl.
+  - intros sg Hl. exfalso. apply (Hn sg). exact Hl.
+  - intros [|k] g H; discriminate.
+  - intros [|k] g H; discriminate.
+  - intros [|k] g sg H; discriminate.
+Qed.
+
+Definition Inv6 (os0 : list (Z * disp)) (w : world) : Prop := Inv3 w /\ ChainInv os0 (fst w) (snd w).
+
+Lemma inv6_wstep os0 w l w' es : Inv6 os0 w -> Model.wstep q_ok s_ok w l = (w', es) -> Inv6 os0 w'.
+Proof.
+  intros [HI HX] Hs. split; [eapply inv3_wstep; eauto|].
+  destruct w as [s fs]. simpl in *. destruct l as [k|kd]; simpl in Hs.
+  - destruct (nth_error fs k) as [f|] eqn:Hn.
+    + destruct (Model.fstep q_ok s_ok s f) as [[s1 f1] e1] eqn:Hf. inversion Hs; subst. simpl. eapply chaininv_step; eauto.
+    + inversion Hs; subst. assumption.
+  - inversion Hs; subst. simpl. destruct HX as [A B C D E F G]. constructor.
+    + exact A.
+    + exact B.
+    + exact C.
+    + intros sg Hl. destruct (D sg Hl) as [?|(j & g & tag & Hj & R)]; [left; assumption|].
+      right. exists j, g, tag. split; [|exact R]. rewrite nth_error_app1; [assumption|]. apply nth_error_Some. congruence.
+    + intros j g Hj Hw. apply nth_app_cases in Hj. destruct Hj as [Hj|[_ ->]]; [exact (E j g Hj Hw)|destruct kd; discriminate].
+    + intros j g Hj Hw. apply nth_app_cases in Hj. destruct Hj as [Hj|[_ ->]]; [exact (F j g Hj Hw)|destruct kd; discriminate].
+    + intros j g sg Hj Hkg. apply nth_app_cases in Hj. destruct Hj as [Hj|[_ ->]]; [exact (G j g sg Hj Hkg)|destruct kd; simpl; exact I].
+Qed.
+
+Lemma inv6_run os0 ls : forall w w' es, Inv6 os0 w -> Model.run q_ok s_ok w ls = (w', es) -> Inv6 os0 w'.
+Proof.
+  induction ls as [|l r IH]; intros w w' es H Hr; simpl in Hr.
+  - inversion Hr; subst. assumption.
+  - destruct (Model.wstep q_ok s_ok w l) as [w1 e1] eqn:Hw. destruct (Model.run q_ok s_ok w1 r) as [w2 e2] eqn:Hr2.
+    inversion Hr; subst. eapply IH; [|eauto]. eapply inv6_wstep; eauto.
+Qed.
+
+(** C04: in every reachable world, a delivery that found the library installed and now loads
+    the data snapshot goes on to call the handler that was installed before the library took the
+    signal over - with the calling convention it was installed with - exactly when there was
+    one, and before any action; with a default or ignored previous disposition nothing is
+    called.  This covers the window in which the slot is not yet published (the fallback) and
+    concurrent first registrations of other signals. *)
+Theorem chained_dispatch os0 ls s fs es :
+  no_lib os0 ->
+  Model.run q_ok s_ok (sh_init os0, []) ls = ((s, fs), es) ->
+  forall k d sg s' d' es', nth_error fs k = Some d -> kind d = KDeliver sg -> fpc d = PDtPtr ->
+    aborted (dt s) = false -> aborted (fb s) = false ->
+    Model.fstep q_ok s_ok s d = (s', d', es') ->
+    fpc d' = match is_foreign (os0_get os0 sg) with
+             | Some si => PPrev si (slot_acts (cur s) sg)
+             | None => after_runs (slot_acts (cur s) sg)
+             end.
+Proof.
+  intros Hn Hr k d sg s' d' es' Hk Hkd Hpc Had Haf Hs.
+  pose proof (inv6_run os0 ls _ _ _ (conj (inv3_init os0) (chaininv_init os0 Hn)) Hr) as [[[HP HC] _] HX]. simpl in HP, HC, HX.
+  destruct HP as [[Hd _] Hfr]. destruct (Hfr k d Hk) as [Hok _]. unfold pc_ok in Hok. rewrite Hpc in Hok. destruct Hok as [_ [i Hv]].
+  rewrite <- (dispatch_choice os0 s fs k d sg HX HC Hd Hk Hkd Hpc).
+  unfold Model.fstep in Hs. rewrite Had, Haf, Hpc in Hs. simpl in Hs. rewrite Hv in Hs. unfold hstep in Hs. rewrite Had in Hs.
+  inversion Hs; subst. simpl. rewrite Hkd. reflexivity.
+Qed.
+
+(** What the frame then does: from [PPrev si acts] exactly one call of the previous handler
+    with convention [si] (one-argument / three-argument with the delivery's info and context),
+    then the actions; from any later program counter no call of a previous handler. *)
+Lemma prev_called_once_first s f si acts :
+  fpc f = PPrev si acts -> aborted (dt s) || aborted (fb s) = false ->
+  Model.fstep q_ok s_ok s f = (s, set_pc f (after_runs acts), [ev 21 0 (sig_of (kind f)) (bz si) 1]).
+Proof. intros Hpc Hab. unfold Model.fstep. rewrite Hab, Hpc. reflexivity. Qed.
+
+Lemma dec_events_no_prev h v h' v' e off :
+  hstep h v ODec = (h', v', e) -> forallb (fun x => negb (Z.eqb (e_op x) 21)) (map (shift off) e) = true.
+Proof.
+  intro E. unfold hstep in E. destruct (aborted h); [inversion E; reflexivity|].
+  destruct v; inversion E; subst; try reflexivity.
+  simpl. destruct (shift_op off (ev 4 (slot_loc i) 1 (zn (cget h i)) 1)) as [-> _]. reflexivity.
+Qed.
+
+Lemma no_prev_call_later s f s' f' es :
+  (exists a, fpc f = PRun a) \/ fpc f = PDtDec \/ fpc f = PFbDec \/ fpc f = PDone ->
+  Model.fstep q_ok s_ok s f = (s', f', es) ->
+  forallb (fun e => negb (Z.eqb (e_op e) 21)) es = true /\
+  ((exists a, fpc f' = PRun a) \/ fpc f' = PDtDec \/ fpc f' = PFbDec \/ fpc f' = PDone).
+Proof.
+  intros Hpc Hs. unfold Model.fstep in Hs. destruct (aborted (dt s) || aborted (fb s)); [inversion Hs; subst; auto|].
+  destruct Hpc as [[a Hpc]|[Hpc|[Hpc|Hpc]]]; rewrite Hpc in Hs.
+  - destruct a as [|x r]; inversion Hs; subst; simpl.
+    + split; [reflexivity|right; left; reflexivity].
+    + split; [reflexivity|]. destruct (after_runs_cases r) as [E|[l E]]; rewrite E; eauto.
+  - destruct (hstep (dt s) (vdt f) ODec) as [[h v] e] eqn:E. inversion Hs; subst. simpl. split.
+    + pose proof (dec_events_no_prev _ _ _ _ _ 0%Z E) as H. 
+      assert (Hm : map (shift 0%Z) es = es).
+      { clear. induction es as [|x r IH]; simpl; [reflexivity|]. rewrite IH. f_equal. unfold shift. destruct (Z.eqb (e_loc x) 0); [reflexivity|].
+        destruct x; simpl. f_equal. apply Z.add_0_r. }
+      rewrite Hm in H. exact H.
+    + right. right. left. reflexivity.
+  - destruct (hstep (fb s) (vfb f) ODec) as [[h v] e] eqn:E. inversion Hs; subst. simpl. split.
+    + apply (dec_events_no_prev _ _ _ _ _ 10%Z E).
+    + right. right. right. reflexivity.
+  - inversion Hs; subst. split; [reflexivity|right; right; right; assumption].
+Qed.
+
+End ChainRun.
